@@ -142,3 +142,28 @@ Proof. destruct c as [h p e m pm0 sg a [g | t s]]; reflexivity. Qed.
 Lemma roundtrip_hash c c' : cert_of_msg (msg_of_cert c) = Some c' ->
   hash c' = hash c /\ signed c' = signed c /\ cert_hash c' = cert_hash c.
 Proof. rewrite roundtrip. intros [= <-]. repeat split. Qed.
+
+(* ---------- composite aggregate verification key: every component is covered ---------- *)
+Lemma avk_of_inj r n t r' n' t' : avk_of r n t = avk_of r' n' t' -> r = r' /\ n = n' /\ t = t'.
+Proof. unfold avk_of. intros H. inversion H. auto. Qed.
+
+Lemma field_avk_components c r n t r' n' t' h : avk c = avk_of r n t -> wf_cert c ->
+  cert_hash c = Ok h -> cert_hash (apply_mut c (MAvk (avk_of r' n' t'))) = Ok h ->
+  r' = r /\ n' = n /\ t' = t.
+Proof.
+  intros Ea W H1 H2.
+  assert (W' : wf_cert (apply_mut c (MAvk (avk_of r' n' t')))) by exact W.
+  assert (E := field_avk c _ h W W' H1 H2). rewrite Ea in E. apply avk_of_inj in E. exact E.
+Qed.
+
+(* ---------- signer list: no canonicalisation (an appended entry, even a repeated one, shows) ---------- *)
+Lemma field_signers_append c p h : wf_cert c -> wf_cert (apply_mut c (MSigners (signers (meta c) ++ [p]))) ->
+  cert_hash c = Ok h -> cert_hash (apply_mut c (MSigners (signers (meta c) ++ [p]))) = Ok h -> False.
+Proof.
+  intros W W' H1 H2. assert (E := field_signers c _ h W W' H1 H2).
+  apply (f_equal (@length party)) in E. rewrite app_length in E. simpl in E. lia.
+Qed.
+
+(* ---------- round trip whatever text form the key / signature strings take ---------- *)
+Lemma roundtrip_enc c ea es : cert_of_msg (reencode (msg_of_cert c) ea es) = Some c.
+Proof. destruct c as [h p e m pm0 sg a [g | t s]]; reflexivity. Qed.
